@@ -937,6 +937,7 @@ func init() {
 		c13Nested(c)
 		c13EdgedNames(c)
 		c13InFlight(c)
+		c13Long(c)
 		c.R.Nontrivial = c.R.States
 		if c13Jail != nil {
 			c13Jail.Remove()
